@@ -399,12 +399,13 @@ pub fn run(e: &Engine) {
     }
     e.run_list("large-reference-encoded-files", &bigs, |(r, v)| json!({"recipe": r.to_json(), "version": v}), |(r, v), rec| check_big(r, v, rec));
     // header sweep: version x length x remainder
-    let versions: [u64; 9] = [0, 1, 2, 3, 4, 255, 256, 1 << 32, u64::MAX];
+    // (values whose low byte or low 32 bits look like a supported version are unsupported too)
+    let versions: [u64; 16] = [0, 1, 2, 3, 4, 255, 256, 257, 258, 259, 0x0301, (1 << 32) + 2, (1 << 56) + 3, 1 << 32, u64::MAX - 253, u64::MAX];
     let seed = e.seed;
-    e.run_enum("header-sweep", 9 * 41 * 6, |idx, rec| {
-        let v = versions[(idx % 9) as usize];
-        let len = ((idx / 9) % 41) as usize;
-        let variant = idx / (9 * 41);
+    e.run_enum("header-sweep", 16 * 41 * 6, |idx, rec| {
+        let v = versions[(idx % 16) as usize];
+        let len = ((idx / 16) % 41) as usize;
+        let variant = idx / (16 * 41);
         let mut b: Vec<u8> = (0..len)
             .map(|i| match variant {
                 0 | 3 => 0u8,
